@@ -78,9 +78,29 @@ def handle (op : String) (args : List String) : Option String := do
       let t ← v3Of (fs.take 3); pure (fsHex ((v3List (fs.drop 3)).flatMap fun v => v3To (v.Add t)))
   | "c17.mesh.scale" => do
       let t ← v3Of (fs.take 3); pure (fsHex ((v3List (fs.drop 3)).flatMap fun v => v3To (v.MultByVector t)))
-  | "c17.mesh.applytrs" => do
+  | "c17.trs.array" | "c17.mesh.applytrs" => do
       let p ← v3Of (fs.take 3); let r ← qOf ((fs.drop 3).take 4); let s ← v3Of ((fs.drop 7).take 3)
       pure (fsHex ((v3List (fs.drop 10)).flatMap fun v => v3To ((trs.New p r s).Transform v)))
+  -- mesh / array level oracle: out must be the pointwise image (kind: 0 rotate q, 1 translate t, 2 scale s, 3 TRS p r s)
+  | "c17.holds.pointwise" => do        -- args: kind, params (4|3|3|10), n, points (3n), out (3n)
+      let kind := (fs.getD 0 0).toUInt64.toNat
+      let np := match kind with | 0 => 4 | 1 => 3 | 2 => 3 | _ => 10
+      let ps := (fs.drop 1).take np
+      let n := ((fs.drop (1 + np)).getD 0 0).toUInt64.toNat
+      let pts := v3List (((fs.drop (2 + np))).take (3 * n))
+      let outs := v3List ((fs.drop (2 + np + 3 * n)))
+      let f : V3 Float → Option (V3 Float) := fun v =>
+        match kind with
+        | 0 => (qOf ps).map (fun q => q.Rotate v)
+        | 1 => (v3Of ps).map (fun t => v.Add t)
+        | 2 => (v3Of ps).map (fun t => v.MultByVector t)
+        | _ => do
+            let p ← v3Of (ps.take 3); let r ← qOf ((ps.drop 3).take 4); let sc ← v3Of (ps.drop 7)
+            pure ((r.Rotate (sc.MultByVector v)).Add p)
+      if outs.length != n || pts.length != n then pure "false" else
+      pure (boolStr ((pts.zip outs).all fun (v, o) => match f v with
+        | some w => allClose 1e-9 (v3To w) (v3To o)
+        | none => false))
   -- oracles: the theorem statements of Props/C17 evaluated on the implementation's own output
   | "c17.holds.add_entrywise" => do   -- args: a b out
       let a ← mOf (fs.take 16); let b ← mOf ((fs.drop 16).take 16); let o ← mOf (fs.drop 32)
